@@ -42,7 +42,31 @@ def load_file():
     return json.loads(open(settings_path()).read())
 
 
+def respell(rng, tok):
+    """another spelling of the same decimal number (float() gives the identical value)"""
+    v = float(tok)
+    u = rng.random()
+    if u < .5:
+        return tok
+    if u < .65 and (tok.startswith("0.") or tok.startswith("-0.")) and "e" not in tok:
+        return tok.replace("0.", ".", 1)  # .5 / -.5
+    if u < .75 and v > 0 and not tok.startswith("+"):
+        return "+" + tok
+    if u < .85 and "e" in tok:
+        return tok.replace("e", "E")
+    if u < .95 and v.is_integer() and v >= 0 and "." not in tok and "e" not in tok:
+        return tok + "."  # 5.   (argparse does not take "-5." for a negative number)
+    return tok
+
+
 def num_token(rng):
+    tok, val = _num_token(rng)
+    t2 = respell(rng, tok)
+    assert float(t2) == float(tok)
+    return t2, val
+
+
+def _num_token(rng):
     u = rng.random()
     if u < .3:
         v = int(rng.integers(-50, 500))
@@ -465,7 +489,12 @@ def k_generate(run, case):
         elif c["kind"] == "float":
             u = rng.random()
             v = float(rng.integers(-20, 20)) if u < .4 else round(float(rng.normal() * 5), 3)
-            tokens.append(repr(v) if u >= .2 else str(int(v)))
+            if u >= .4 and rng.random() < .3:
+                v = round(float(rng.uniform(-1, 1)), 3)  # |v| < 1: spellings like .5 / -.5 exist
+            tok = repr(v) if u >= .2 else str(int(v))
+            if not tok.startswith("-0.") or True:
+                tok = respell(rng, tok)
+            tokens.append(tok)
         elif c["kind"] == "float2":
             tokens += [repr(round(float(abs(rng.normal())), 3)), str(int(rng.integers(0, 90)))]
         elif c["kind"] == "choice":
